@@ -18,7 +18,6 @@ from harness.props import C14_hard as H
 
 ID = "C14"
 ANCHORS = ["solvor/scc.py"]
-FINDING_CLASS = "scc_outside_neighbours"   # class name of a (possible) known-findings entry
 IMPORTS = "From SV Require Import C14.Scc C14.SccSpec."
 SPEC_MAX_N = 10
 COQ_MAX_N, COQ_MAX_E = 70, 400        # correspondence (vm_compute of the assoc-list model) stays cheap below this
@@ -125,8 +124,67 @@ def gen_case(rng, big=False, kind=None):
             nodes.insert(rng.randrange(len(nodes) + 1), rng.choice(nodes))
     case = {"nodes": nodes, "adj": [[u, list(ws)] for u, ws in sorted(adj.items()) if ws], "kind": kind,
             "label": "int", "edges_variant": edges_variant}
+    if rng.random() < 0.6:
+        case["edit"] = make_edit(rng, case)
     decorate(rng, case)
     return case
+
+
+def make_edit(rng, case):
+    """Class A2: an in-place edit of the caller's objects between two calls (same list / dict / call-back objects afterwards)."""
+    nodes, adj = case["nodes"], case["adj"]
+    ids = all_ids(case) or [0]
+    fresh_id = max(ids) + 1
+    ev = case.get("edges_variant")
+    n = len(nodes)
+    kinds = ["append_edge", "append_edge"] + (["replace_nbr", "replace_nbr", "remove_edge"] if adj else []) + \
+            (["replace_node", "swap_nodes"] if n >= 1 and not ev else [])
+    k = rng.choice(kinds)
+    src = (lambda: rng.randrange(n)) if ev else (lambda: rng.choice(nodes or [0]))
+    if k == "append_edge":
+        return [k, src() if (nodes or ev and n) else 0, rng.choice(ids + [fresh_id])] if (nodes or not ev) else None
+    if k in ("replace_nbr", "remove_edge"):
+        u, ws = rng.choice(adj)
+        j = rng.randrange(len(ws))
+        return [k, u, j, rng.choice(ids + [fresh_id])] if k == "replace_nbr" else [k, u, j]
+    if k == "replace_node":
+        outside = [x for x in ids if x not in set(nodes)]
+        return [k, rng.randrange(n), rng.choice(outside + [fresh_id])]
+    i, j = rng.randrange(n), rng.randrange(n)
+    return [k, i, j]
+
+
+def edited(case):
+    """The nat-level case after its edit, or None when the edit does not apply (e.g. after shrinking)."""
+    e = case.get("edit")
+    if not e:
+        return None
+    try:
+        nodes = list(case["nodes"])
+        adj = [[u, list(ws)] for u, ws in case["adj"]]
+        d = {u: ws for u, ws in adj}
+        if e[0] == "append_edge":
+            if e[1] in d:
+                d[e[1]].append(e[2])
+            else:
+                adj.append([e[1], [e[2]]])
+        elif e[0] == "replace_nbr":
+            d[e[1]][e[2]] = e[3]
+        elif e[0] == "remove_edge":
+            del d[e[1]][e[2]]
+        elif e[0] == "replace_node":
+            nodes[e[1]] = e[2]
+        elif e[0] == "swap_nodes":
+            nodes[e[1]], nodes[e[2]] = nodes[e[2]], nodes[e[1]]
+        else:
+            return None
+        c2 = {k: v for k, v in case.items() if k != "edit"}
+        c2.update(nodes=nodes, adj=[[u, ws] for u, ws in adj if ws])
+        if c2.get("edges_variant") and not all(u < len(nodes) for u, _ in c2["adj"]):
+            return None
+        return c2
+    except (KeyError, IndexError, TypeError):
+        return None
 
 
 def all_ids(case):
@@ -136,6 +194,13 @@ def all_ids(case):
     for u, ws in case["adj"]:
         ids.append(u)
         ids.extend(ws)
+    e = case.get("edit") or []
+    if e and e[0] in ("append_edge",):
+        ids += [e[1], e[2]]
+    elif e and e[0] == "replace_nbr":
+        ids.append(e[3])
+    elif e and e[0] == "replace_node":
+        ids.append(e[2])
     return sorted(set(ids))
 
 
@@ -151,6 +216,7 @@ def decorate(rng, case):
         case["nodes_kind"] = rng.choice(H.NODE_KINDS)
         if case["label"] == "pool":
             case["labels"] = H.pool_labels(rng, all_ids(case))
+            case["alt"] = rng.random() < 0.5          # class X: neighbours refer to a node through an equal object of another numeric type
     case["nbr_kind"] = rng.choice(H.NBR_KINDS)
     if has_dup_nodes(case) and case["nodes_kind"] in ("dictkeys", "range"):
         case["nodes_kind"] = "tuple"
@@ -238,7 +304,8 @@ def run_impl(case):
     if case.get("label") == "iter":                       # round-1 replay files
         nk = bk = "iter"
     big = bool(case.get("big"))
-    adj_nat = {u: ws for u, ws in case["adj"]}
+    adj_nat = {u: list(ws) for u, ws in case["adj"]}
+    alt = case.get("label") == "pool" and case.get("alt")
     adj = {f(u): [f(w) for w in ws] for u, ws in case["adj"]}            # the caller's own objects
     nodes = [f(v) for v in case["nodes"]]
     adj0, nodes0 = copy.deepcopy(adj), copy.deepcopy(nodes)
@@ -248,7 +315,9 @@ def run_impl(case):
         ncalls[0] += 1
         if bk == "fresh":                                 # equal-but-not-identical label objects on every call
             i = inv(v)
-            return [f(w) for w in adj_nat.get(i, [])] if not isinstance(i, H.Unknown) else []
+            if isinstance(i, H.Unknown):
+                return []
+            return [f(w, alt=bool((k + ncalls[0]) % 2)) for k, w in enumerate(adj_nat.get(i, []))] if alt else [f(w) for w in adj_nat.get(i, [])]
         return H.wrap(bk, adj.get(v, []))
 
     def nodes_arg():
@@ -276,7 +345,8 @@ def run_impl(case):
                    "succ": succ, "n_keys": len(adjc), "dup_succ": any(len(set(adjc[k])) != len(adjc[k]) for k in adjc)}
 
     calls = [("scc", scc_call), ("topo", topo_call), ("cond", cond_call)]
-    es0 = None
+    es0 = es = ek = None
+    es_t = []
     if case.get("edges_variant"):
         n = len(case["nodes"])
         ek = case.get("edges_kind", "list_tuples")
@@ -322,6 +392,8 @@ def run_impl(case):
         if es0 is not None and es != es0:
             alias.append(f"the caller's edge list was modified ({when})")
 
+    if case.get("_plain"):
+        return out
     inputs_changed("by a call")
     # the caller now modifies the results it got; neither its inputs nor later answers may change
     for name, r in raws.items():
@@ -350,6 +422,50 @@ def run_impl(case):
                 alias.append(f"{name}: a second call on the same input objects (after the other functions, in the opposite order) "
                              f"returned {str(again)[:150]} instead of {str(out[name])[:150]}")
         inputs_changed("by a repeated call")
+    # class A2: the caller edits its objects IN PLACE (same node list, same dict / neighbour lists behind the same call-back object,
+    # same edge list) and calls again; answers must equal those of a fresh call on a copy of the edited input
+    c2 = edited(case) if not big and not case.get("_plain") else None
+    if c2 is not None:
+        e = case["edit"]
+        try:
+            if e[0] == "append_edge":
+                key = f(e[1])
+                if key in adj:
+                    adj[key].append(f(e[2]))
+                else:
+                    adj[key] = [f(e[2])]
+                adj_nat.setdefault(e[1], []).append(e[2])
+            elif e[0] == "replace_nbr":
+                adj[f(e[1])][e[2]] = f(e[3])
+                adj_nat[e[1]][e[2]] = e[3]
+            elif e[0] == "remove_edge":
+                del adj[f(e[1])][e[2]]
+                del adj_nat[e[1]][e[2]]
+            elif e[0] == "replace_node":
+                nodes[e[1]] = f(e[2])
+            elif e[0] == "swap_nodes":
+                nodes[e[1]], nodes[e[2]] = nodes[e[2]], nodes[e[1]]
+            if es0 is not None:
+                es2 = edges_of(c2)
+                if isinstance(es, list):
+                    es[:] = [list(x) for x in es2] if ek == "list_lists" else es2
+                else:
+                    es = tuple(es2)
+                es_t[:] = [tuple(x) for x in es2]
+                es0 = copy.deepcopy(es)
+            adj0, nodes0 = copy.deepcopy(adj), copy.deepcopy(nodes)
+            same = {}
+            for name, fn in calls:
+                _, same[name] = one(fn)
+            inputs_changed("by a call after the in-place edit")
+            fresh = run_impl(dict(c2, _plain=True))
+            for name in same:
+                if json.dumps(same[name], sort_keys=True, default=_canon) != json.dumps(fresh.get(name), sort_keys=True, default=_canon):
+                    alias.append(f"{name}: after the caller edited its input in place ({e}) the call returned {str(same[name])[:150]}, "
+                                 f"a fresh call on a copy of the edited input returns {str(fresh.get(name))[:150]}")
+            out["after_edit"] = same
+        except (KeyError, IndexError):
+            pass
     out["alias"] = alias
     return out
 
@@ -470,8 +586,22 @@ def _unknown(res):
     return f"the result contains {u[:3]} which is not a node of the input" if u else None
 
 
+def observation_only(case):
+    """/root/seed3/POLICY_X.md: outside the property - (a) a NaN or +-inf object used as a node label, (d) the same node listed twice in the
+    node iterable.  Such cases are still run (a hang is cut by the guard) but nothing about them is judged."""
+    if has_dup_nodes(case):
+        return "duplicate_node"
+    if case.get("label") == "pool":
+        used = set(all_ids(case))
+        if any(i in used and (sp == ["nan"] or sp in (["fl", "inf"], ["fl", "-inf"])) for i, sp in case.get("labels", [])):
+            return "nan_or_inf_label"
+    return None
+
+
 def judge(case, outs):
     """[(which, description)] of property failures of the implementation on this case."""
+    if observation_only(case):
+        return []
     bad = [("alias", a) for a in outs.get("alias", [])]
     if case.get("big") or len(set(case["nodes"])) > SMALL_ORACLE_N:
         try:
@@ -480,11 +610,14 @@ def judge(case, outs):
             raise
         except Exception as e:  # noqa: BLE001
             return bad + [("scc", f"malformed result on {case.get('family')} ({type(e).__name__}: {e})")]
+    if "after_edit" in outs:
+        c2 = edited(case)
+        if c2 is not None:
+            bad += [(w, f"after the in-place edit {case['edit']} of the caller's input: {d}")
+                    for w, d in judge(c2, dict(outs["after_edit"])) ]
     for which, res in outs.items():
-        if which == "alias":
+        if which in ("alias", "after_edit"):
             continue
-        if which.startswith("topo") and has_dup_nodes(case):
-            continue                                  # property read for duplicate-free node iterables (noted)
         try:
             d = _unknown(res) or ORACLES[which](case, res)
         except Exception as e:  # noqa: BLE001   (an output the oracle cannot even read is not a valid answer)
@@ -554,7 +687,7 @@ def c_edges(case):
 
 # ---------------------------------------------------------------- the check
 def _work(case):
-    return run_impl(case)
+    return H.run_huge(case) if case.get("huge") else run_impl(case)
 
 
 def _corpus():
@@ -572,7 +705,7 @@ def _corpus():
 
 
 def small_case(c):
-    return not c.get("big") and len(c["nodes"]) <= 40
+    return not c.get("big") and not c.get("huge") and len(c["nodes"]) <= 40
 
 
 def event_search(rng, target, tries=4000):
@@ -607,14 +740,14 @@ def run(ctx: Ctx):
                 "nodes and an in-set edge between two different nodes; distinct = canonical JSON of (nodes, adjacency)")
     ctx.proof_step(["C14"])
     ctx.notes.append("model = code WITH the fix (Tarjan skips neighbours outside the node set); neighbours call-back = dict.get(v, [])")
-    ctx.notes.append("topological_sort judged by the oracle only for duplicate-free node iterables (with duplicates the code counts edges "
-                     "per occurrence; model follows the code, correspondence still checked)")
     ctx.notes.append("condense: successor sets compared as sets, members of a condensed node (frozenset) compared sorted")
     ctx.notes.append(f"Coq correspondence on cases with <= {COQ_MAX_N} nodes and <= {COQ_MAX_E} edges; Coq spec checkers on cases with <= {SPEC_MAX_N} "
                      f"distinct nodes (cost ~n^5); brute-force closure oracle up to {SMALL_ORACLE_N} nodes, above that an independent linear-time "
                      "reference (iterative Kosaraju) + answers known by construction")
     ctx.notes.append("deep instances (DFS paths of 802..5000 nodes, thorough 20000) run under the interpreter's DEFAULT recursion limit: since "
                      "60ff76e the code raises the limit itself; a RecursionError is judged as a failure")
+    ctx.notes.append("observation-only (POLICY_X a, d): NaN / +-inf objects as node labels and node iterables that list a node twice are run but "
+                     "not judged and not sent to the Coq correspondence (histogram observation_only); finite labels of any magnitude stay judged")
     ctx.notes.append("backend None/auto/rust of the *_edges variants are judged by the property (oracle) only; equivalence of back-ends is C12")
     ctx.notes.append("general theorems (Props/C14.v) are about the Gallina model; the model is tied to /repo by the correspondence lemmas of "
                      "this run; in addition the sound Coq checkers scc_check/topo_check/cond_check are evaluated in the kernel on the "
@@ -645,19 +778,32 @@ def run(ctx: Ctx):
                     seen_ev[k] += 1
     for k in H.EVENTS:
         ctx.count("event_cases", k, seen_ev[k])
-    cases += H.big_cases(ctx.rng, big)
+    cases = H.huge_cases(ctx.rng, big) + cases + H.big_cases(ctx.rng, big)      # the > 2^20-node instances start first (longest)
+    max_work = {}
+
+    def note_work(w):
+        for k, v in (w or {}).items():
+            max_work[k] = max(max_work.get(k, 0), v)
     import time as _t
     _t0 = _t.time()
     outs = pmap(_work, cases)
     ctx.extra["phase_s"] = {"generate+events": round(_t0 - ctx.t0, 1), "implementation": round(_t.time() - _t0, 1)}
     _t1 = _t.time()
 
-    # open known findings of this class (none unless the coordinator lists one)
-    open_ids = [f["id"] for f in ctx.open_findings() if f.get("class") == FINDING_CLASS]
-
     n_bad = 0
     for case, out in zip(cases, outs):
-        ctx.evaluations += 2 * (len(out) - 1) if not case.get("big") else len(out) - 1
+        if case.get("huge"):
+            ctx.evaluations += out["calls"]
+            ctx.count("kind", "huge")
+            ctx.nontriv(case["family"] + str(case["adj"]))
+            note_work(out["work"])
+            for which, desc in out["bad"][:1]:
+                n_bad += 1
+                ctx.violation(f"{which}: {desc} [nodes = {'range(N)' if case['order'] == 'asc' else 'range(N-1,-1,-1)'} with N = {case['N']} "
+                              f"passed as {case['nodes_kind']}; neighbours = {dict((u, ws) for u, ws in case['adj'])}.get(v, ()); every other node isolated]",
+                              {"case": case, "function": which})
+            continue
+        ctx.evaluations += sum(len(v) if isinstance(v, dict) else 1 for k, v in out.items() if k != "alias") * (1 if case.get("big") else 2)
         if case.get("big"):
             ctx.count("kind", case["kind"])
             ctx.count("n_nodes_big", len(case["nodes"]))
@@ -665,6 +811,8 @@ def run(ctx: Ctx):
             ctx.count("nodes_kind", case.get("nodes_kind", "list"))
             ctx.nontriv(case["family"])
             bad = judge(case, out)
+            note_work(case.get("_work"))
+            case.pop("_work", None)
             if bad:
                 n_bad += 1
                 which, desc = bad[0]
@@ -678,6 +826,12 @@ def run(ctx: Ctx):
                 ctx.count("pool_label", sp[0])
         if "scc_e2" in out:
             ctx.count("backend2", str(case.get("backend2")))
+        ctx.count("in_place_edit", (case.get("edit") or ["none"])[0] if "after_edit" in out or not case.get("edit") else "not-applicable")
+        if case.get("alt"):
+            ctx.count("cross_type_equal_refs", True)
+        if observation_only(case):
+            ctx.count("observation_only", observation_only(case) + (":raised" if any(isinstance(v, tuple) and v[0] == "exc" and v[1] != "hang" for v in out.values())
+                                                                      else ":hang" if any(isinstance(v, tuple) and v[:2] == ("exc", "hang") for v in out.values()) else ":answered"))
         ctx.count("kind", case["kind"])
         ctx.count("n_nodes", len(ns))
         ctx.count("label", case["label"])
@@ -697,12 +851,9 @@ def run(ctx: Ctx):
         bad = judge(case, out)
         if bad:
             n_bad += 1
-            if n_bad > 3 and not open_ids:
+            if n_bad > 3:
                 continue
             which, desc = bad[0]
-            if open_ids and has_outside(case) and all(w in ("scc", "cond", "scc_e") for w, _ in bad):
-                ctx.known_hit(open_ids[0], f"{which} on a graph with a neighbour outside the node set: {desc}")
-                continue
             small = shrink(case, lambda c: any(w == which for w, _ in judge(c, run_impl(c))))
             o2 = run_impl(small)
             d2 = [d for w, d in judge(small, o2) if w == which]
@@ -716,6 +867,9 @@ def run(ctx: Ctx):
             ctx.violation(f"{which}: {d2[0] if d2 else desc}{how}",
                           {"case": small, "function": which, "impl": str(o2.get(which))[:500], "original_case": case})
     ctx.count("cases_violating_oracle", n_bad)
+    ctx.extra["max_work_per_loop"] = max_work          # class W: largest iteration count reached per internal loop (by construction)
+    for k, v in max_work.items():
+        ctx.count("max_work:" + k, v)
     ctx.extra["phase_s"]["oracle"] = round(_t.time() - _t1, 1)
     _t2 = _t.time()
 
@@ -728,7 +882,7 @@ def run(ctx: Ctx):
             disagree.setdefault(idxs[i], []).append(tag)
 
     all_idx = [i for i, c in enumerate(cases)
-               if len(c["nodes"]) <= COQ_MAX_N and sum(len(ws) for _, ws in c["adj"]) <= COQ_MAX_E]
+               if not c.get("huge") and not observation_only(c) and len(c["nodes"]) <= COQ_MAX_N and sum(len(ws) for _, ws in c["adj"]) <= COQ_MAX_E]
     ctx.count("coq_correspondence_cases", len(all_idx), 1)
     gn = {i: f"({c_graph(cases[i])}, {clist(cases[i]['nodes'])})" for i in all_idx}
     T3 = "(graph * list nat) * (option (list (list nat)) * (option (option (list nat)) * option (list (list nat) * list (list nat))))"
@@ -766,7 +920,7 @@ def run(ctx: Ctx):
     ctx.count("cases_disagreeing_with_model_or_spec", len(disagree))
 
     # ---- disagreement / broken proof without an oracle failure: search, then report
-    if (disagree or ctx.broken) and not ctx.violations and not ctx.known_hits:
+    if (disagree or ctx.broken) and not ctx.violations:
         found = False
         for _ in range(ctx.budget(20000, 60000)):
             c = gen_case(ctx.rng, True)
@@ -796,6 +950,11 @@ def replay(obj):
     case.setdefault("label", "int")
     case.setdefault("kind", "replay")
     case.setdefault("edges_variant", False)
+    if case.get("huge"):
+        out = H.run_huge(case)
+        print(f"N = {case['N']} nodes ({case['order']}, passed as {case['nodes_kind']}), neighbours = {dict((u, ws) for u, ws in case['adj'])}.get(v, ())")
+        print("verdict:", out["bad"] or "ok")
+        return 1 if out["bad"] else 0
     outs = run_impl(case)
     bad = judge(case, outs)
     adj = {u: ws for u, ws in case["adj"]}
